@@ -487,26 +487,26 @@ theorem defineGlobal_rel (B : Builtins) (q : String) (ch : Chain) (n : Name) (ch
         exact TabRel.of_set (k := n) (v := { name := n, index := -1, scope := .global })
           (by rw [hsb.1]) (by rw [hsb.2]) (by simp)
 
-theorem setParamsLoop_rel (B : Builtins) (q : Name → String) : ∀ (params : List Name) (st : Tab) (ps : Chain)
+theorem setParamsLoop_rel (B : Builtins) (q : Name → String) : ∀ (params : List Name) (k : Nat) (st : Tab) (ps : Chain)
     (st' : Tab) (ps' : Chain) (e : Option String),
-    setParamsLoop B q params st ps = .ok (st', ps', e) → ChainRel B (st :: ps) (st' :: ps') := by
+    setParamsLoop B q params k st ps = .ok (st', ps', e) → ChainRel B (st :: ps) (st' :: ps') := by
   intro params
   induction params with
   | nil =>
-    intro st ps st' ps' e h
+    intro k st ps st' ps' e h
     simp only [setParamsLoop, Res.ok.injEq, Prod.mk.injEq] at h
     obtain ⟨h1, h2, _⟩ := h
     subst h1 h2
     exact ChainRel.refl B _
   | cons param rest ih =>
-    intro st ps st' ps' e h
+    intro k st ps st' ps' e h
     unfold setParamsLoop at h
     cases hg : mapGet st.store param with
     | some sym =>
       simp only [hg, Res.ok.injEq, Prod.mk.injEq] at h
       obtain ⟨h1, h2, _⟩ := h
       subst h1 h2
-      exact ChainRel.refl B _
+      exact ChainRel.mk (TabRel.of_same rfl rfl) (ChainRel.refl B _)
     | none =>
       simp only [hg] at h
       cases hi : nextIndex (st :: ps) with
@@ -525,7 +525,7 @@ theorem setParamsLoop_rel (B : Builtins) (q : Name → String) : ∀ (params : L
           have h1 : ChainRel B (st :: ps) (shadowBuiltin B st2 param :: ps2) :=
             ChainRel.mk (TabRel.of_set (k := param) (v := { name := param, index := idx, scope := .local })
               (by rw [hsb.1, a]) (by rw [hsb.2, b]) (by simp)) c
-          exact ChainRel.trans h1 (ih _ _ _ _ _ h)
+          exact ChainRel.trans h1 (ih _ _ _ _ _ _ h)
 
 theorem setParams_rel (B : Builtins) (q : Name → String) (ch : Chain) (ns : List Name) (ch' : Chain)
     (e : Option String) (h : setParams B q ch ns = .ok (ch', e)) : ChainRel B ch ch' := by
@@ -540,7 +540,7 @@ theorem setParams_rel (B : Builtins) (q : Name → String) (ch : Chain) (ns : Li
       · simp only [Res.ok.injEq, Prod.mk.injEq] at h; obtain ⟨h1, _⟩ := h; subst h1; exact ChainRel.refl B _
       · split at h
         · simp only [Res.ok.injEq, Prod.mk.injEq] at h; obtain ⟨h1, _⟩ := h; subst h1; exact ChainRel.refl B _
-        · cases hl : setParamsLoop B q ns { st with numParams := (ns.length : Int) } ps with
+        · cases hl : setParamsLoop B q ns 0 { st with numParams := (ns.length : Int) } ps with
           | panic m => simp [hl, bind, Res.bind] at h
           | err e => simp [hl, bind, Res.bind] at h
           | ok v =>
@@ -550,7 +550,7 @@ theorem setParams_rel (B : Builtins) (q : Name → String) (ch : Chain) (ns : Li
             subst h1
             have h1 : ChainRel B (st :: ps) ({ st with numParams := (ns.length : Int) } :: ps) :=
               ChainRel.mk (TabRel.of_same rfl rfl) (ChainRel.refl B _)
-            exact ChainRel.trans h1 (setParamsLoop_rel B q _ _ _ _ _ _ hl)
+            exact ChainRel.trans h1 (setParamsLoop_rel B q _ _ _ _ _ _ _ hl)
 
 theorem enableParams_rel (B : Builtins) (ch : Chain) (v : Bool) (ch' : Chain)
     (h : enableParams ch v = .ok ch') : ChainRel B ch ch' := by
